@@ -31,7 +31,7 @@ Lemma good_finished c0 f s s' :
   finished s s' -> completions s = c0 -> good c0 f s' O.
 Proof.
   intros [F1 [F2 [F3 F4]]] Hc. unfold good. cbn [run].
-  refine (conj F1 (conj _ (conj F3 (conj F4 _)))); [congruence | intros m Hm; lia].
+  refine (conj F1 (conj _ (conj F3 (conj (proj1 F4) _)))); [congruence | intros m Hm; lia].
 Qed.
 
 Lemma inv_active s : inv s -> pending s <> PIdle /\ pending s <> PHazard.
